@@ -127,7 +127,13 @@ def run(chk, failed):
     reported = 0
     kinds_seen = set()
     for i, (ln, a) in enumerate(zip(lines, impl)):
-        fs = G.oracle_c09(ln, a)
+        fs = []
+        for f in G.oracle_c09(ln, a):
+            # recorded, unrepaired defects: reported as KNOWN-FINDING when known_findings.json lists the classifier's key
+            if f[1].startswith("known:") and chk.known_finding(f[1][6:]):
+                chk.count("known-finding:" + f[1][6:])
+                continue
+            fs.append(f)
         if not fs:
             continue
         kind = fs[0][1]
@@ -137,7 +143,7 @@ def run(chk, failed):
         kinds_seen.add(kind)
         reported += 1
         small = shrink_oracle(chk, ln, kind)
-        _report(chk, "%s_%d" % (kind.replace("-", ""), i), small)
+        _report(chk, "%s_%d" % (kind.replace("-", "").replace(":", "_"), i), small)
 
     mism = [(i, ln, a, b) for i, (ln, a, b) in enumerate(zip(lines, impl, model)) if a != b]
     chk.count("model-mismatches", len(mism))
@@ -146,7 +152,7 @@ def run(chk, failed):
         extra = [G.gen_delete(chk.rng, i).line() for i in range(4 * n)]
         eimpl = chk.run_impl("storage", "TestVerifProbeStorage", extra, name="search")
         for ln, a in zip(extra, eimpl):
-            fs = G.oracle_c09(ln, a)
+            fs = [f for f in G.oracle_c09(ln, a) if not (f[1].startswith("known:") and chk.known_finding(f[1][6:]))]
             if fs:
                 small = shrink_oracle(chk, ln, fs[0][1])
                 _report(chk, "search_" + fs[0][1].replace("-", ""), small)
@@ -164,10 +170,16 @@ def run(chk, failed):
         "expired/too_old: (now - expire-group) * 1000 is int64 arithmetic; theorems expired_spec/too_old_spec hold under in_i64((now-expire)*1000), "
         "the example C09_expiry_guard_needed shows the wrap outside it; generated expire-group values go up to the edge of that guard "
         "(now0 + 2^63 div 1000), never beyond",
-        "`newest commit` of a group is the timestamp of the last APPENDED commit (consumerGroup.lastCommit); the expiry oracle only claims "
-        "something when every commit sent for the group is on one side of the expiry time",
-        "a group left without topics: delete-topic keeps it listed (empty), delete-group-topic removes it (also when the named topic was not "
-        "one of its topics and it was already empty) — stated as the code behaves (delete_group_topic_listing), accepted by the oracle",
+        "consumerGroup.lastCommit is the timestamp of the last APPENDED commit of any partition, not of the newest commit: a group "
+        "with commits on both sides of the cut-off can be purged early — known finding C09:lastcommit-not-monotone "
+        "(C09_not_expired_but_purged_refuted; proved instead: C09_purged_iff_last_appended_expired_partial); the expiry oracle reports "
+        "it through that classifier and treats the all-recent / all-old cases as hard failures",
+        "a group left without topics: delete-topic keeps it listed (empty); delete-group-topic of its last topic removes it (documented "
+        "mechanism, accepted); delete-group-topic of a topic it does NOT consume removes an already empty group — known finding "
+        "C09:empty-group-foreign-topic-delete (C09_delete_foreign_topic_unlists_group_refuted), reported through that classifier when the "
+        "bracket shows that the group did not consume the topic",
+        "status requests are not part of this tie: the evaluator answers from its cache for up to expire-cache seconds after a deletion "
+        "(composition with C05); the HTTP level is observed by C16's end-to-end case and C17",
     ]
 
 
